@@ -53,12 +53,22 @@ func NewTaskOutput(t *task.Task, format string, stdout, stderr io.Writer) (*Task
 
 // Stdout returns io.Writer that can be used for Job's STDOUT
 func (o *TaskOutput) Stdout() io.Writer {
-	return io.MultiWriter(o.decorator, &o.t.Log.Stdout)
+	return io.MultiWriter(o.stream(), &o.t.Log.Stdout)
 }
 
 // Stderr returns io.Writer that can be used for Job's STDERR
 func (o *TaskOutput) Stderr() io.Writer {
-	return io.MultiWriter(o.decorator, &o.t.Log.Stderr)
+	return io.MultiWriter(o.stream(), &o.t.Log.Stderr)
+}
+
+// stream returns the decorator's writer for one output stream. A decorator
+// that keeps state per stream hands out a separate writer for each
+func (o *TaskOutput) stream() io.Writer {
+	if d, ok := o.decorator.(interface{ stream() io.Writer }); ok {
+		return d.stream()
+	}
+
+	return o.decorator
 }
 
 // Start should be called before task's output starts
